@@ -7,9 +7,13 @@ import (
 	"encoding/json"
 	"fmt"
 	"os"
+	"runtime/debug"
+	"strconv"
+	"strings"
 	"time"
 
 	"github.com/DataDog/datadog-traceroute/traceroute"
+	"golang.org/x/sys/unix"
 )
 
 type in struct {
@@ -24,6 +28,65 @@ type in struct {
 	Queries   int    `json:"queries"`
 	E2e       int    `json:"e2e"`
 	Paris     bool   `json:"paris"`
+	// FdLimit: "fd exhaustion" mode. The request is run several times while RLIMIT_NOFILE allows 1, 2, 3 ... more
+	// descriptors than are open; for every run the descriptors left open afterwards are counted (GC disabled, so no
+	// finaliser tidies up behind the code under test).
+	FdLimit bool `json:"fd_limit"`
+}
+
+type fdRun struct {
+	Extra  int    `json:"extra"`
+	Error  string `json:"error"`
+	Result bool   `json:"result"`
+	Leaked int    `json:"leaked"`
+	Which  string `json:"which,omitempty"`
+}
+
+func openFds() map[string]string {
+	m := map[string]string{}
+	ents, _ := os.ReadDir("/proc/self/fd")
+	for _, e := range ents {
+		if t, err := os.Readlink("/proc/self/fd/" + e.Name()); err == nil {
+			m[e.Name()] = t
+		}
+	}
+	return m
+}
+
+func fdExhaustion(params traceroute.TracerouteParams) {
+	debug.SetGCPercent(-1)
+	var old unix.Rlimit
+	unix.Getrlimit(unix.RLIMIT_NOFILE, &old)
+	// one warm-up run so that lazily created descriptors of the runtime (epoll, event fds) exist already
+	traceroute.NewTraceroute().RunTraceroute(context.Background(), params)
+	var runs []fdRun
+	for extra := 1; extra <= 6; extra++ {
+		before := openFds()
+		hi := 0
+		for k := range before {
+			if n, _ := strconv.Atoi(k); n > hi {
+				hi = n
+			}
+		}
+		lim := unix.Rlimit{Cur: uint64(hi + 1 + extra), Max: old.Max}
+		unix.Setrlimit(unix.RLIMIT_NOFILE, &lim)
+		res, err := traceroute.NewTraceroute().RunTraceroute(context.Background(), params)
+		unix.Setrlimit(unix.RLIMIT_NOFILE, &old)
+		time.Sleep(50 * time.Millisecond)
+		after := openFds()
+		r := fdRun{Extra: extra, Result: res != nil}
+		if err != nil {
+			r.Error = err.Error()
+		}
+		for k, t := range after {
+			if _, ok := before[k]; !ok && !strings.Contains(t, "/proc/") {
+				r.Leaked++
+				r.Which += k + "->" + t + " "
+			}
+		}
+		runs = append(runs, r)
+	}
+	json.NewEncoder(os.Stdout).Encode(map[string]any{"fd_runs": runs})
 }
 
 type hop struct {
@@ -47,6 +110,10 @@ func main() {
 	}
 	params := traceroute.TracerouteParams{Hostname: p.Hostname, Port: p.Port, Protocol: p.Protocol, MinTTL: p.MinTTL, MaxTTL: p.MaxTTL, Delay: 50,
 		Timeout: time.Duration(p.TimeoutMs) * time.Millisecond, TCPMethod: traceroute.TCPMethod(p.TCPMethod), WantV6: p.WantV6, TracerouteQueries: p.Queries, E2eQueries: p.E2e, TCPSynParisTracerouteMode: p.Paris}
+	if p.FdLimit {
+		fdExhaustion(params)
+		return
+	}
 	res, err := traceroute.NewTraceroute().RunTraceroute(context.Background(), params)
 	var o out
 	if err != nil {
